@@ -160,6 +160,11 @@ def judge_query(a, ref, rid, budget=BUDGET, frames=FRAMES):
     sys.setrecursionlimit(_depth() + frames)
     try:
         status, val, events = run_with_budget(lambda: a.get_resolved_res_configs(rid), budget)
+        if status == "budget":
+            # a one-time lazy initialisation inside the library (e.g. the system resource table, ~4e5 events) would be charged to
+            # whichever query triggers it first in this process; a resolution that really does not terminate exceeds the budget
+            # again on the immediate second attempt, and only that is reported
+            status, val, events = run_with_budget(lambda: a.get_resolved_res_configs(rid), budget)
     finally:
         sys.setrecursionlimit(old)
     if status == "budget":
